@@ -67,13 +67,19 @@ class Probes:
             log.append(('T', pid, owner, tm, a, i))
             return (a is None or a) and (i is None or i)
 
-        d = dict(E=E, X=X, A=A, G=G, K=K, T=T, U=self.U)
+        def H(key):
+            log.append(('H', key))
+            return self.val(self.stepno, key)
+
+        d = dict(E=E, X=X, A=A, G=G, K=K, T=T, H=H, U=self.U)
         d.update(extra)
         return d
 
-    def listener(self):
+    def listener(self, interpreter=None):
         log = self.log
 
         def on_meta(m):
+            if interpreter is not None:
+                interpreter.configuration       # reading the configuration while a step is under way is harmless
             log.append(('M', m.name, dict(m.data)))
         return on_meta
